@@ -654,4 +654,57 @@ U_FSET = Unit(P + '/Mininec.f.setter', ['Mininec.f.setter'], t_fsetter,
               canaries=[Canary('fsetter-keeps-zint', 'Mininec.f.setter', _NoZintReset, [P + '/Mininec.f.setter/per-object-frequency-caches-are-reset']),
                         Canary('fsetter-keeps-current', 'Mininec.f.setter', _NoCurrentReset, [P + '/Mininec.f.setter/solution-state'])])
 
-UNITS = [U_ML, U_SCALAR, U_LEAN, U_LAP, U_RLC, U_TRAP, U_SIMPLE, U_DVECS, U_SKIN, U_SKIN_INIT, U_INS, U_GR, U_FSET]
+
+
+# ================================================================ fix_distributed_loads
+def t_fix_distributed(eng):
+    """every junction pulse of which exactly one object carries a coat (skin) load is attached to that load, whichever of
+    its two segments is the loaded one, unless it is attached already; nothing else is attached"""
+    n = P + '/Mininec.fix_distributed_loads/'
+    m = SObj('Mininec', label='m')
+    calls = []
+    eng.summaries['Mininec.register_load'] = lambda e, a, k: calls.append(list(a))
+    eng.summaries['Pulse_Container.__iter__'] = K.sum_pulse_container_iter
+
+    def check(eng_, before, p, i, got):
+        segs = eng_.getattr(p, 'segs')
+        g1, g2 = eng_.getattr(segs[0], 'geobj'), eng_.getattr(segs[1], 'geobj')
+        diff = b_not(eng_.values_equal(g1, g2))
+        exp = []
+        for fld in ('coat_load', 'skin_load'):
+            l1, l2 = eng_.getfield(g1, fld), eng_.getfield(g2, fld)
+            has1, has2 = SV(l1.obj.ident != 0, 'bool'), SV(l2.obj.ident != 0, 'bool')
+            one = b_and(diff, b_or(b_and(has1, b_not(has2)), b_and(b_not(has1), has2)))
+            if eng_.decide(one):
+                ld = l1.obj if eng_.decide(has1) else l2.obj
+                member = eng_.slist_contains(eng_.getfield(ld, 'pulses'), p)
+                if not eng_.decide(member):
+                    exp.append(ld)
+        ok = len(calls) == len(exp)
+        eng_.oblige(n + 'attaches-exactly-the-missing-one-sided-loads', ok, detail='%d calls, %d expected' % (len(calls), len(exp)))
+        if ok:
+            for c, ld in zip(calls, exp):
+                eng_.oblige(n + 'the-loaded-objects-load-on-this-pulse',
+                            b_and(c[0] is m, eng_.values_equal(c[1], ld), num_eq(c[2], eng_.getattr(p, 'idx')), len(c) == 3))
+    eng.loop_specs[('Mininec.fix_distributed_loads', 0)] = LoopSpec([], None, P + '.fixdist', [m.ident], check=check)
+    eng.call_qual('Mininec.fix_distributed_loads', [m])
+    eng.cover('fix_distributed')
+
+
+class _OneSided(ast.NodeTransformer):
+    """only when the second segment's object is the loaded one"""
+
+    def visit_If(self, node):
+        self.generic_visit(node)
+        t = ast.unparse(node.test).replace(' ', '')
+        if 'skin_load' in t and t.count('skin_load') == 4:
+            node.test = ast.parse('not g1.skin_load and g2.skin_load').body[0].value
+        return node
+
+
+U_FIXD = Unit(P + '/Mininec.fix_distributed_loads', ['Mininec.fix_distributed_loads'], t_fix_distributed,
+              {**SCH, ('Skin_Effect_Load', 'pulses'): 'seq:obj:Pulse', ('Insulation_Load', 'pulses'): 'seq:obj:Pulse'},
+              canaries=[Canary('distributed-load-attached-from-one-side-only', 'Mininec.fix_distributed_loads', _OneSided,
+                               [P + '/Mininec.fix_distributed_loads/'])])
+
+UNITS = [U_ML, U_SCALAR, U_LEAN, U_LAP, U_RLC, U_TRAP, U_SIMPLE, U_DVECS, U_SKIN, U_SKIN_INIT, U_INS, U_GR, U_FSET, U_FIXD]
